@@ -387,7 +387,10 @@ impl HistCheck {
                         })
                         .collect();
                     if let Some(order) = w.order.get(k) {
-                        let got = walker::dfs_texts(db.graph(), order);
+                        // a block without text of its own (an empty heading, a list item that starts with a code block)
+                        // is a position, not content: compare the non-empty entries
+                        let got: Vec<String> = walker::dfs_texts(db.graph(), order).into_iter().filter(|t| !t.is_empty()).collect();
+                        let expect: Vec<String> = expect.into_iter().filter(|t| !t.is_empty()).collect();
                         if got != expect {
                             viol.push(("dfs-order-differs-from-source".into(), format!("{}: note {}: walk {:?} vs source {:?}", what, k, got, expect)));
                         }
